@@ -6,7 +6,7 @@
 //! cap), splices, pathological shapes, random bytes, and a reader that starts failing at
 //! every operation index.
 
-use crate::asm::Enc;
+use crate::asm::{Enc, Field};
 use crate::gen::{mutate, seeds};
 use crate::mon::entries::{FaultMk, Mk, Mon, PlainMk, Secs, P};
 use crate::mon::{ep_cfi, ep_conv, ep_expr, ep_info, ep_misc};
@@ -19,7 +19,7 @@ pub fn info() -> PropInfo {
     PropInfo {
         id: "C01",
         level: "fault_enumeration",
-        rule: "each case = (entry point, sections, caller parameters, optional reader-failure index). Families: (i) every byte string of length <=2 and length 3 over a 24-byte boundary alphabet, per entry point and input slot, alone and with valid companion sections; (ii)+(iii) valid seed sections (gimli::write output + hand-assembled sections + the generators of the other properties) and their mutations: every truncation point, single byte substitution over {0,1,0x7f,0x80,0xff} at every offset, in-place injection of ~36 extreme integers/LEB128s at every offset (strided above a per-slot cap), random splices; (iv) pathological shapes (100 KiB of 0x00/0x80/0xff, 50 000-deep DIE chain, nested entry_value, 10^5 zero aranges tuples, 4*10^5 zero .debug_frame bytes, .eh_frame_hdr with fde_count 2^63, unterminated macro list); (v) FaultSlice reader failing from operation k for every k up to the number of operations the entry performs (strided above a cap); random byte strings. Monitors: panic capture (any panic located in gimli or std on its behalf), per-iterator step bound 4*len+64 with errors ignored, 'documented sticky' iterators must return Ok(None) after an Err, worker death (stack overflow / abort / allocation failure under RLIMIT_AS) and stalls detected by the orchestrator through the per-case journal. Non-trivial = at least one input byte; distinct by digest of (entry, sections, parameters, failure index).",
+        rule: "each case = (entry point, sections, caller parameters, optional reader-failure index). Families: (i) every byte string of length <=2 and length 3 over a 24-byte boundary alphabet, per entry point and input slot, alone and with valid companion sections; (ii)+(iii) valid seed sections (gimli::write output + hand-assembled sections + the generators of the other properties) and their mutations: every truncation point, single byte substitution over {0,1,0x7f,0x80,0xff} at every offset, in-place injection of ~36 extreme integers/LEB128s at every offset (strided above a per-slot cap: 2000 for the gimli::write/hand-assembled seeds, 700 for generator seeds), random splices; (iii-b) generator seeds (gen::info units with every form / unit kind and a realistic compilation unit with ranges, locations and a line program; gen::line v2-v5 headers with every opcode, VLIW and a mid-sequence set_address; gen::cfi .debug_frame/.eh_frame/.eh_frame_hdr with every CFA opcode, augmentations and pointer encodings; gen::lists every list flavour + .debug_addr + minimal unit; gen::index cu/tu index, names, aranges, pubnames/pubtypes, str_offsets, addr; gen::expr programs; encodings rotated over both byte orders, both formats, versions 2-5 and address sizes 1/2/4/8; each section a few hundred bytes) additionally get structure-aware mutations from the generator's field map: every field replaced by each hostile value of its kind (fixed-width extremes in the section's byte order, ~37 hostile LEB128 strings that may change the length), strings emptied / cut / unterminated, fields deleted / duplicated, truncation at every field boundary +-1; (iv) pathological shapes (100 KiB of 0x00/0x80/0xff, 50 000-deep DIE chain, nested entry_value, 10^5 zero aranges tuples, 4*10^5 zero .debug_frame bytes, .eh_frame_hdr with fde_count 2^63, unterminated macro list); (v) FaultSlice reader failing from operation k for every k up to the number of operations the entry performs (strided above a cap); random byte strings. Monitors: panic capture (any panic located in gimli or std on its behalf), per-iterator step bound 4*len+64 with errors ignored, 'documented sticky' iterators must return Ok(None) after an Err, worker death (stack overflow / abort / allocation failure under RLIMIT_AS) and stalls detected by the orchestrator through the per-case journal. Non-trivial = at least one input byte; distinct by digest of (entry, sections, parameters, failure index).",
         assumptions: &[
             "caller-supplied parameters stay inside their documented domains (address_size in {1,2,4,8}; Evaluation used per its documented protocol; an iteration limit is always set because an expression may legitimately loop for ever without one)",
             "EntriesRaw is used the documented way (stop at the first Err); the tree API's recursion is the caller's, so the harness caps tree depth at 400",
@@ -29,7 +29,8 @@ pub fn info() -> PropInfo {
         must_observe: &[
             "entry.units", "entry.abbrevs", "entry.dwarf", "entry.line", "entry.aranges", "entry.tables", "entry.lists", "entry.pubs", "entry.names", "entry.index", "entry.macros",
             "entry.debug_frame", "entry.eh_frame", "entry.eh_frame_hdr", "entry.expr", "entry.conv.dwarf_from", "entry.conv.stepwise", "entry.conv.line", "entry.conv.frame",
-            "family.short", "family.mut", "family.splice", "family.patho", "family.fault", "family.rand", "ok_results", "err_results",
+            "family.short", "family.mut", "family.field", "family.splice", "family.patho", "family.fault", "family.rand", "ok_results", "err_results",
+            "max:seeds.base", "max:seeds.gen.info", "max:seeds.gen.line", "max:seeds.gen.cfi", "max:seeds.gen.lists", "max:seeds.gen.index", "max:seeds.gen.expr",
         ],
         run,
     }
@@ -182,6 +183,8 @@ pub fn run_case(ctx: &mut Ctx, e: &Entry, s: &Secs, p: P, fault: Option<u64>, fa
                 ctx.obs("step_budget_exhausted");
             }
             for (sig, what) in &mon.problems {
+                // which family refutes what (used to judge the exploration on seeded defects)
+                ctx.obs(&format!("hit.{family}|{sig}"));
                 let replay = json!({"entry": e.name, "input": input()});
                 ctx.violation(sig, &format!("{} [entry {}]", what, e.name), replay);
             }
@@ -197,6 +200,8 @@ pub fn run_case(ctx: &mut Ctx, e: &Entry, s: &Secs, p: P, fault: Option<u64>, fa
             ops
         }
         Err(pi) => {
+            let file = pi.file.rsplit('/').next().unwrap_or("?").to_string();
+            ctx.obs(&format!("hit.{family}|panic|{}:{}", file, pi.line));
             ctx.report_panic2("*", e.name, &pi, &input);
             0
         }
@@ -213,6 +218,25 @@ pub struct Seed {
     pub name: String,
     pub enc: Enc,
     pub secs: Secs,
+    /// where the seed comes from: "base" (gimli::write + hand-assembled) or "gen.<generator>"
+    pub origin: &'static str,
+    /// field maps of the slots for which the generator recorded one (structure-aware mutations)
+    pub fields: Vec<(Slot, Vec<Field>)>,
+    /// entry points whose behaviour depends on this seed's sections (empty = every entry
+    /// point that has one of the seed's slots)
+    pub entries: &'static [&'static str],
+}
+
+impl Seed {
+    pub fn base(name: String, enc: Enc, secs: Secs) -> Seed {
+        Seed { name, enc, secs, origin: "base", fields: vec![], entries: &[] }
+    }
+    pub fn wants(&self, e: &Entry) -> bool {
+        self.entries.is_empty() || self.entries.contains(&e.name)
+    }
+    pub fn is_base(&self) -> bool {
+        self.origin == "base"
+    }
 }
 
 fn merge(a: &mut Secs, b: Secs) {
@@ -245,7 +269,7 @@ pub(crate) fn seed_pool(ctx: &Ctx) -> Vec<Seed> {
         for (j, e) in ex.into_iter().enumerate() {
             let mut s2 = if j == 0 { secs.clone() } else { Secs::default() };
             s2.expr = e;
-            out.push(Seed { name: format!("s{k}e{j}"), enc, secs: s2 });
+            out.push(Seed::base(format!("s{k}e{j}"), enc, s2));
         }
     }
     out.extend(crate::props::c01_extra::extra_seeds(ctx));
@@ -309,9 +333,15 @@ fn family_short(ctx: &mut Ctx, pool: &[Seed]) {
 }
 
 fn family_mut(ctx: &mut Ctx, pool: &[Seed]) {
-    let cap: u64 = ctx.size(2500, 20_000, 5);
+    let cap_base: u64 = ctx.size(2000, 20_000, 5);
+    // generator seeds are small and also get the structure-aware family: a lower blind cap
+    let cap_gen: u64 = ctx.size(700, 6_000, 5);
     for seed in pool {
+        let cap = if seed.is_base() { cap_base } else { cap_gen };
         for e in ENTRIES {
+            if !seed.wants(e) {
+                continue;
+            }
             for slot in e.slots {
                 let base = slot_get(&seed.secs, *slot).to_vec();
                 if base.is_empty() {
@@ -339,6 +369,50 @@ fn family_mut(ctx: &mut Ctx, pool: &[Seed]) {
                         }
                     }
                     k += 1;
+                }
+            }
+        }
+    }
+}
+
+/// Structure-aware mutations: every recorded field of a generator seed replaced by each
+/// hostile value of its kind (fixed-width extremes in the seed's byte order, hostile
+/// LEB128s that may change the length), and truncation at every field boundary +-1.
+/// Stream "field.<seed>.<entry>.<slot>", index = position in `mutate::field_mutations_ext`.
+fn family_field(ctx: &mut Ctx, pool: &[Seed]) {
+    // not divided in the dbg profile: arithmetic overflow is only observable there, and the
+    // field substitutions are the cases that aim at it
+    let cap: u64 = ctx.size(2500, 40_000, 1);
+    for seed in pool {
+        for (slot, fields) in &seed.fields {
+            let base = slot_get(&seed.secs, *slot).to_vec();
+            if base.is_empty() || fields.is_empty() {
+                continue;
+            }
+            let mut muts: Option<Vec<(Vec<u8>, String)>> = None;
+            for e in ENTRIES {
+                if !seed.wants(e) || !e.slots.contains(slot) {
+                    continue;
+                }
+                let stream = format!("field.{}.{}.{}", seed.name, e.name, slot_name(*slot));
+                let all = muts.get_or_insert_with(|| mutate::field_mutations_ext(&base, fields, seed.enc.le));
+                let total = all.len() as u64;
+                let stride = (total / cap).max(1);
+                let phase = mix64(ctx.seed ^ fnv(stream.as_bytes())) % stride;
+                let mut k = phase;
+                while k < total {
+                    if ctx.want(&stream, k) {
+                        let (bytes, desc) = &all[k as usize];
+                        let mut s = seed.secs.clone();
+                        slot_set(&mut s, *slot, bytes.clone());
+                        let mut r = ctx.rng(&stream, k);
+                        let p = params(&mut r, seed.enc);
+                        run_case(ctx, e, &s, p, None, "field", desc);
+                        if k == phase {
+                            ctx.sample("field", || json!({"entry": e.name, "seed": seed.name, "slot": slot_name(*slot), "mutation": desc, "enc": seed.enc.label(), "fields": fields.len(), "mutations": total}));
+                        }
+                    }
+                    k += stride;
                 }
             }
         }
@@ -461,7 +535,7 @@ fn family_fault(ctx: &mut Ctx, pool: &[Seed]) {
     let cap: u64 = ctx.size(600, 4000, 4);
     for seed in pool {
         for e in ENTRIES {
-            if !e.slots.iter().any(|sl| !slot_get(&seed.secs, *sl).is_empty()) {
+            if !seed.wants(e) || !e.slots.iter().any(|sl| !slot_get(&seed.secs, *sl).is_empty()) {
                 continue;
             }
             let stream = format!("fault.{}.{}", seed.name, e.name);
@@ -523,6 +597,41 @@ pub fn run(ctx: &mut Ctx) {
     let t = std::time::Instant::now();
     let pool = seed_pool(ctx);
     ctx.obs_n("seed_pool", pool.len() as u64);
+    {
+        // per-origin seed counts and largest mutated section (merged over shards by maximum)
+        let mut counts: std::collections::BTreeMap<&'static str, u64> = Default::default();
+        for sd in &pool {
+            *counts.entry(sd.origin).or_insert(0) += 1;
+            let largest = sd.fields.iter().map(|(sl, _)| slot_get(&sd.secs, *sl).len()).max().unwrap_or(0);
+            ctx.obs_max(&format!("seed_section_bytes.{}", sd.origin), largest as u64);
+        }
+        for (o, n) in counts {
+            ctx.obs_max(&format!("seeds.{o}"), n);
+        }
+    }
+    if ctx.shard == 0 && ctx.only.is_none() && std::env::var_os("GV_C01_DEBUG_SEEDS").is_some() {
+        crate::props::c01_extra::debug_seed_conversions(&pool);
+    }
+    if ctx.shard == 0 && ctx.only.is_none() {
+        // how deep the unmutated generator seeds parse: Ok / Err results per origin and entry
+        // (evidence that the seeds are valid enough to reach the code behind the headers)
+        for sd in pool.iter().filter(|s| !s.is_base()) {
+            for e in ENTRIES {
+                if !sd.wants(e) || !e.slots.iter().any(|sl| !slot_get(&sd.secs, *sl).is_empty()) {
+                    continue;
+                }
+                let p = P { enc: sd.enc, dwo: false, aarch64: false, seed: 7 };
+                if let Ok(mon) = crate::rt::capture(|| {
+                    let mut mon = Mon::new(600_000);
+                    dispatch(e.name, &PlainMk(p.enc.endian()), &sd.secs, &p, &mut mon);
+                    mon
+                }) {
+                    ctx.obs_n(&format!("seed_oks.{}.{}", sd.origin, e.name), mon.oks);
+                    ctx.obs_n(&format!("seed_errs.{}.{}", sd.origin, e.name), mon.errs);
+                }
+            }
+        }
+    }
     let mut lap = |ctx: &mut Ctx, name: &str, t0: &mut std::time::Instant| {
         ctx.obs_n(&format!("ms.{name}"), t0.elapsed().as_millis() as u64);
         *t0 = std::time::Instant::now();
@@ -533,6 +642,8 @@ pub fn run(ctx: &mut Ctx) {
     lap(ctx, "regress", &mut t0);
     family_mut(ctx, &pool);
     lap(ctx, "mut", &mut t0);
+    family_field(ctx, &pool);
+    lap(ctx, "field", &mut t0);
     family_fault(ctx, &pool);
     lap(ctx, "fault", &mut t0);
     family_splice(ctx, &pool);
